@@ -378,6 +378,17 @@ impl<T> VVec<T> {
         }
     }
     pub fn sort(&mut self) where T: Ord { self.sort_unstable() }
+    /// removes all but the first of consecutive elements with equal keys
+    pub fn dedup_by_key<K: PartialEq, F: FnMut(&mut T) -> K>(&mut self, mut key: F) {
+        let old = std::mem::take(self);
+        let mut last: Option<K> = None;
+        for mut x in old.into_iter() {
+            let k = key(&mut x);
+            let dup = match &last { Some(l) => *l == k, None => false };
+            if !dup { last = Some(k); self.push(x); }
+        }
+    }
+    pub fn dedup(&mut self) where T: PartialEq + Clone { self.dedup_by_key(|x| x.clone()) }
 }
 impl<T> std::ops::Index<usize> for VVec<T> {
     type Output = T;
@@ -493,6 +504,17 @@ impl<T> VVecV1<T> {
         }
     }
     pub fn sort(&mut self) where T: Ord { self.sort_unstable() }
+    /// removes all but the first of consecutive elements with equal keys (rebuilds the vector: concrete-index loops)
+    pub fn dedup_by_key<K: PartialEq, F: FnMut(&mut T) -> K>(&mut self, mut key: F) {
+        let old = std::mem::take(self);
+        let mut last: Option<K> = None;
+        for mut x in old.into_iter() {
+            let k = key(&mut x);
+            let dup = match &last { Some(l) => *l == k, None => false };
+            if !dup { last = Some(k); self.push(x); }
+        }
+    }
+    pub fn dedup(&mut self) where T: PartialEq + Clone { self.dedup_by_key(|x| x.clone()) }
 }
 impl<T> std::ops::Index<usize> for VVecV1<T> {
     type Output = T;
